@@ -1,6 +1,7 @@
 """C18 - streams are consumed incrementally (laziness-structure clauses)."""
 import sys
 
+from sa import rules_r6b as R6B
 from sa import report, rules_order as RO, rules_state as RS
 from sa import rules_extra as RX
 
@@ -23,6 +24,10 @@ def run(ctx, repo):
     ctx.call(RX.r_single_read, repo)
     ctx.call(RX.r_dispose_chain, repo, ['loader.BaseLoader', 'loader.SafeLoader', 'loader.FullLoader', 'loader.Loader', 'loader.UnsafeLoader', 'cyaml.CBaseLoader', 'cyaml.CSafeLoader', 'cyaml.CFullLoader', 'cyaml.CLoader', 'cyaml.CUnsafeLoader'])
     ctx.call(RX.r_no_memo, repo)
+    ctx.call(R6B.r_assert_inventory, repo, ('scanner', 'parser', 'composer'))
+    ctx.call(R6B.r_one_token_per_fetch, repo)
+    ctx.call(R6B.r_no_lookahead_at_doc_end, repo)
+
 
 if __name__ == '__main__':
     sys.exit(report.main('C18', 'other', run))
